@@ -212,8 +212,45 @@ Proof.
   - exact IH.
 Qed.
 
+Lemma sget_filter_key (f : string -> bool) s k :
+  sget (filter (fun kv => f (fst kv)) s) k = if f k then sget s k else None.
+Proof.
+  induction s as [|[k' v] r IH]; simpl; [now destruct (f k)|].
+  destruct (f k') eqn:E; simpl.
+  - destruct (String.eqb k k') eqn:Ek; [|exact IH].
+    apply String.eqb_eq in Ek. subst. now rewrite E.
+  - rewrite IH. destruct (String.eqb k k') eqn:Ek; [|reflexivity].
+    apply String.eqb_eq in Ek. subst. now rewrite E.
+Qed.
+
+Lemma failed_start_link k :
+  pcase_agree k = true -> failed_start_monitor k = true.
+Proof.
+  unfold pcase_agree, failed_start_monitor. intros H. apply andb_true_iff in H as [H _].
+  destruct (pc_steps k) as [|[x o] [|y r]]; try reflexivity; [|destruct x; reflexivity].
+  destruct x; try reflexivity.
+  simpl in H. rewrite andb_true_r in H. unfold snap_agree in H.
+  apply andb_true_iff in H as [H He]. apply andb_true_iff in H as [Hs Ht]. simpl in Hs, Ht.
+  unfold nothing_written. apply andb_true_iff. split; [exact Ht|].
+  apply forallb_forall. intros key Hin.
+  set (pkeys := map p_key (filter p_persistent (pc_cfgs k))) in *.
+  assert (Hin2 : In key (map p_key (pc_cfgs k) ++ map fst (sn_store o))).
+  { apply in_app_or in Hin as [Hp|Ho]; apply in_or_app; [left|right; exact Ho].
+    unfold pkeys in Hp. apply in_map_iff in Hp as (c & <- & Hc). apply filter_In in Hc as [Hc _].
+    now apply in_map. }
+  pose proof (storage_eqb_keys_in _ _ _ _ Hs Hin2) as G.
+  change (filter (fun kv : string * bst => existsb (String.eqb (fst kv)) pkeys) (sn_store (pc_init k)))
+    with (filter (fun kv => (fun x => existsb (String.eqb x) pkeys) (fst kv)) (sn_store (pc_init k))) in G.
+  rewrite sget_filter_key in G.
+  destruct (existsb (String.eqb key) pkeys) eqn:Ep.
+  - destruct (sget (sn_store (pc_init k)) key), (sget (sn_store o) key); auto; destruct G.
+  - destruct (sget (sn_store o) key) eqn:Eo; [destruct G|].
+    destruct (sget (sn_store (pc_init k)) key); reflexivity.
+Qed.
+
 Theorem persist_agree_implies_monitor k : pcase_agree k = true -> pcase_monitor k = true.
 Proof.
-  unfold pcase_agree, pcase_monitor. intros H. apply andb_true_iff in H as [H _].
+  intros H0. unfold pcase_monitor. rewrite (failed_start_link k H0), andb_true_r.
+  unfold pcase_agree in H0. apply andb_true_iff in H0 as [H _].
   apply psteps_monitor in H. exact H.
 Qed.
